@@ -110,7 +110,10 @@ func genColl(rng *hx.Rand, home string) *Coll {
 	return c
 }
 
-var failCodes = []int64{404, 403, 500, 507, 423, 401, 410}
+// statuses a backend may refuse a resource with: registered codes of every class and codes
+// net/http has no reason phrase for (http.StatusText == ""), for which Status.MarshalText
+// writes an empty phrase after the second space
+var failCodes = []int64{400, 401, 403, 404, 409, 410, 412, 423, 499, 500, 507, 509, 520, 599, 419, 430, 450, 512, 555, 306}
 
 func genFail(rng *hx.Rand, card bool) *Outcome {
 	switch rng.Intn(8) {
